@@ -5,10 +5,11 @@
 #include "common.h"
 static void reset(void)
 {
-  g_persisted = nondet_bool(); g_wipe_cfg = nondet_bool(); g_wiped = 0; g_live = 0; g_listed = 0;
+  g_persisted = nondet_bool(); g_wipe_cfg = nondet_bool(); g_wiped = 0; g_live = 0; g_listed = 0; g_opened = 0; g_unlinked = 0;
   for (int k = 0; k < 64; ++k) __skel_nonempty[k] = nondet_bool();
 }
 void h_get_record(void) { reset(); skel_ChunkStore__get_record(); CANARY_POINT(); }
 void h_sweep(void) { reset(); skel_ChunkStore__sweep_expired(); CANARY_POINT(); }
 void h_snapshot(void) { reset(); skel_ChunkStore__snapshot(); CANARY_POINT(); }
 void h_put(void) { reset(); skel_ChunkStore__put(); CANARY_POINT(); }
+void h_wipe(void) { reset(); skel_ChunkStore__secure_wipe_file(); CANARY_POINT(); }
